@@ -15,6 +15,9 @@
 #ifndef VK_NL3
 #define VK_NL3 1
 #endif
+#ifndef VK_NLMAX
+#define VK_NLMAX 3      /* longest name of the instance */
+#endif
 static const int NL[3] = {VK_NL1, VK_NL2, VK_NL3};
 #define NBLOCKS ((VK_ALN + 59) / 60)
 #define MAXNL (VK_NL1 > VK_NL2 ? (VK_NL1 > VK_NL3 || VK_NS < 3 ? VK_NL1 : VK_NL3) : (VK_NL2 > VK_NL3 || VK_NS < 3 ? VK_NL2 : VK_NL3))
@@ -78,9 +81,11 @@ VK_MAIN()
                 m->sequences[s]->seq[VK_ALN] = 0;
                 VK_ASSUME(nres[s] >= 1);
                 m->sequences[s]->len = nres[s];
-                for (int k = 0; k < 3; k++) if (k < NL[s]) {
+                for (int k = 0; k < VK_NLMAX; k++) if (k < NL[s]) {
 #ifdef VK_SYM_NAMES
                         unsigned char ch = vin.b[vb++]; VK_ASSUME(name_char_ok(ch));
+#elif defined(VK_LONG_NAMES)
+                        unsigned char ch = (unsigned char)("Kx7_.|-q"[(k + 3 * s) % 8]);   /* long concrete names over the allowed character set */
 #elif defined(VK_PREFIX_NAMES)
                         unsigned char ch = (unsigned char)("ABC"[k]);   /* every shorter name is a proper prefix of every longer one */
 #else
@@ -126,7 +131,7 @@ VK_MAIN()
         VK_ASSERT(r->numseq == VK_NS, "C06: same number of rows");
         for (int s = 0; s < VK_NS; s++) {
                 struct msa_seq *q = r->sequences[s];
-                for (int k = 0; k < 4; k++) if (k <= NL[s]) VK_ASSERT(q->name[k] == m->sequences[s]->name[k], "C06: same names in the same order");
+                for (int k = 0; k <= VK_NLMAX; k++) if (k <= NL[s]) VK_ASSERT(q->name[k] == m->sequences[s]->name[k], "C06: same names in the same order");
                 VK_ASSERT(q->len == nres[s], "C06: same number of residues");
                 int k = 0, run = 0;
                 for (int c = 0; c < VK_ALN; c++) {
